@@ -360,46 +360,59 @@ def shrinkLoop (E : Env) (newLength : Nat) (d : Desc) (newWritable throw : Bool)
       pure (some r)
     else shrinkLoop E newLength d newWritable throw cnt
 
+/-- arrayDefineOwnProperty, `name == "length"` with a value, from `for newLength < length` to the end
+    (type_array.go:89-107); `d` already carries the forced writable flag, `cnt` = length − newLength -/
+def arrayShrinkTail (E : Env) (newLength : Nat) (d : Desc) (newWritable throw : Bool) (cnt : Nat) : M Obj Bool := do
+  match ← shrinkLoop E newLength d newWritable throw cnt with
+  | some r => pure r
+  | none =>
+    if !newWritable then
+      let d' : Desc := { d with w := some false }      -- descriptor.mode &= 0o077
+      let _ ← objectDefineOwnProperty E .length d' false
+      objectDefineOwnProperty E .length d' throw         -- falls through to the final return
+    else objectDefineOwnProperty E .length d throw
+
+/-- arrayDefineOwnProperty, `name == "length"` with descriptor.value = uint32Value(newLength)
+    (type_array.go:75-107) -/
+def arraySetLength (E : Env) (d : Desc) (throw : Bool) (newLength : Nat) : M Obj Bool := fun o =>
+  let length := arrLength o
+  let d : Desc := { d with v := some (.int newLength) }
+  if newLength > length then objectDefineOwnProperty E .length d throw o
+  else if !lengthWritable o then reject throw o
+  else
+    let newWritable := !(d.w == some false)
+    let d : Desc := if !newWritable then { d with w := some true } else d
+    (do
+      let ok ← objectDefineOwnProperty E .length d throw
+      if !ok then pure false else
+      arrayShrinkTail E newLength d newWritable throw (length - newLength)) o
+
+/-- arrayDefineOwnProperty, `index := stringToArrayIndex(name); index >= 0` (type_array.go:108-119) -/
+def arrayDefineIndex (E : Env) (k : Key) (d : Desc) (throw : Bool) (index : Nat) : M Obj Bool := fun o =>
+  let length := arrLength o
+  if index ≥ length ∧ lengthWritable o = false then reject throw o
+  else
+    (do
+      let ok ← objectDefineOwnProperty E (.idx index) d false
+      if !ok then reject throw else
+      if index ≥ length then
+        let lp := (lookup .length o.props).getD ⟨.int 0, false, false, false⟩
+        let _ ← objectDefineOwnProperty E .length ⟨some (.int (index + 1 : Nat)), some lp.w, some lp.e, some lp.c⟩ false
+        pure true
+      else objectDefineOwnProperty E k d throw) o
+
 /-- arrayDefineOwnProperty (type_array.go:54) -/
 def arrayDefineOwnProperty (E : Env) (k : Key) (d : Desc) (throw : Bool) : M Obj Bool := fun o =>
-  let length := arrLength o
   if k = .length then
     match d.v with
     | none => objectDefineOwnProperty E k d throw o
     | some nv =>
       match arrayUint32 E nv with
       | none => .err .range o
-      | some newLength =>
-        let d : Desc := { d with v := some (.int newLength) }
-        if newLength > length then objectDefineOwnProperty E k d throw o
-        else if !lengthWritable o then reject throw o
-        else
-          let newWritable := !(d.w == some false)
-          let d : Desc := if !newWritable then { d with w := some true } else d
-          (do
-            let ok ← objectDefineOwnProperty E k d throw
-            if !ok then pure false else
-            match ← shrinkLoop E newLength d newWritable throw (length - newLength) with
-            | some r => pure r
-            | none =>
-              if !newWritable then
-                let d' : Desc := { d with w := some false }      -- descriptor.mode &= 0o077
-                let _ ← objectDefineOwnProperty E k d' false
-                objectDefineOwnProperty E k d' throw         -- falls through to the final return
-              else objectDefineOwnProperty E k d throw) o
+      | some newLength => arraySetLength E d throw newLength o
   else
     let index := stringToArrayIndex k
-    if index ≥ 0 then
-      if index ≥ (length : Int) ∧ lengthWritable o = false then reject throw o
-      else
-        (do
-          let ok ← objectDefineOwnProperty E (.idx index.toNat) d false
-          if !ok then reject throw else
-          if index ≥ (length : Int) then
-            let lp := (lookup .length o.props).getD ⟨.int 0, false, false, false⟩
-            let _ ← objectDefineOwnProperty E .length ⟨some (.int (index + 1)), some lp.w, some lp.e, some lp.c⟩ false
-            pure true
-          else objectDefineOwnProperty E k d throw) o
+    if index ≥ 0 then arrayDefineIndex E k d throw index.toNat o
     else objectDefineOwnProperty E k d throw o
 
 /-- obj.defineOwnProperty: dispatch on the object class -/
